@@ -403,6 +403,31 @@ view_harnesses!(d2_reverse_of_extend_linked_len, d2_reverse_of_extend_linked_inb
 view_harnesses!(d2_extend_linked_of_views_len, d2_extend_linked_of_views_inb, d2_extend_linked_of_views_oob, 10, { let (a, ma) = any_range(); let (b, mb) = any_range(); let (from, to, step) = any_small_slice_args(); let ms = MSlice { m: mb, from, to, step }; kani::assume(ma.n > 0 && ms.len() > 0); let x = l1::Out::new(l1::ReverseArray(a)); let y = b.slice(from, to, NonZeroU32::new(step)); (l2::Out::new(l2::ExtendedArray::new(x, y)), MExt(MRev(ma), ms)) });
 
 
+/// Quick-tier probe for stacked views: `get` only, in and out of bounds, index <= 255.
+macro_rules! view_get_small {
+    ($name:ident, $unwind:literal, $build:block) => {
+        #[kani::proof]
+        #[kani::unwind($unwind)]
+        pub fn $name() {
+            let (out, m) = $build;
+            let i: u8 = kani::any();
+            let i = i as usize;
+            let mlen = m.len();
+            #[cfg(verif_playback)]
+            replay_lines(&m, Some(i));
+            let g = out.get(i);
+            if i < mlen {
+                assert!(is_num(&g, m.at(i)), "C08.get.in_bounds wrong element");
+            } else {
+                assert!(matches!(g, Ok(None)), "C08.get.oob index >= len must be None (out of bounds)");
+            }
+            kani::cover!(mlen > 0 && i == mlen, "index == len reached");
+            kani::cover!(mlen > 1 && i == mlen - 1, "last element reached");
+            kani::cover!(mlen > 1 && i == 0, "first element reached");
+        }
+    };
+}
+
 // quick-tier depth-2 probes (small box)
 //@harness name=d2_slice_of_reverse_get tier=quick timeout=600 unwind=10 desc="slice(reversed(range)): get at every index 0..=255 (in and out of bounds)" bounds="n<=3, |from|,|to|<=4, step<=3, k<=3"
 view_get_small!(d2_slice_of_reverse_get, 10, { let (a, m) = any_range_n(3); let (from, to, step) = any_tiny_slice_args(); (a.reversed().slice(from, to, NonZeroU32::new(step)), MSlice { m: MRev(m), from, to, step }) });
